@@ -5,6 +5,7 @@
 package core
 
 import (
+	"encoding/json"
 	"fmt"
 	"go/ast"
 	"go/token"
@@ -91,6 +92,11 @@ func Load(repo string, patterns ...string) (*Prog, error) {
 		return nil, fmt.Errorf("type-check/load errors:\n  %s", strings.Join(errs, "\n  "))
 	}
 	Current = p
+	for path, pk := range p.ByPkg {
+		if IsSource(path) {
+			matchRenames(pk)
+		}
+	}
 	return p, nil
 }
 
@@ -148,7 +154,288 @@ func (p *Prog) FuncDecl(rel, name string) (*ast.FuncDecl, *packages.Package) {
 			}
 		}
 	}
+	// the function may have been renamed: fall back on its recorded fingerprint
+	if fd := renamedAnchor(pk, rel, name, recv); fd != nil {
+		return fd, pk
+	}
 	return nil, pk
+}
+
+// ---- names that survive a rename
+//
+// Rules, obligation keys and table lines name functions. An unexported function
+// can be renamed without any change of behaviour; so that such a rename does
+// not turn into "anchor not found", a changed key or a table line that no
+// longer applies, tables/anchors.json records, for every function of the
+// module's hand-written packages, a fingerprint (receiver, parameter and result
+// types, and a feature set: functions of other packages it calls, its string
+// and character literals, the field names it selects). On load, the recorded
+// names that are gone from a package are matched with the functions that are
+// new in it (same receiver and signature, most similar feature set, greedy and
+// only when unambiguous); a matched function answers to its recorded name
+// everywhere the checker prints or compares function names. The table is
+// written only on request (J5CHECK_WRITE_ANCHORS) and is used for nothing else:
+// without a match the behaviour is that of an unknown function.
+
+type AnchorPrint struct {
+	Recv string   `json:"recv"`
+	Sig  string   `json:"sig"`
+	Feat []string `json:"feat"`
+}
+
+var (
+	AnchorTable string // path of tables/anchors.json
+	AnchorNotes []string
+	anchorTable map[string]AnchorPrint
+	oldNameOf   = map[types.Object]string{}  // renamed function → recorded simple name
+	renamedDecl = map[string]*ast.FuncDecl{} // "rel.Recv.Method" (recorded) → current declaration
+	renameDone  = map[*packages.Package]bool{}
+)
+
+func fingerprintOf(pk *packages.Package, fd *ast.FuncDecl) AnchorPrint {
+	fp := AnchorPrint{Recv: RecvName(fd)}
+	if o, ok := pk.TypesInfo.Defs[fd.Name].(*types.Func); ok {
+		sig := o.Type().(*types.Signature)
+		q := func(p *types.Package) string { return p.Name() }
+		var ps, rs []string
+		for i := 0; i < sig.Params().Len(); i++ {
+			ps = append(ps, types.TypeString(sig.Params().At(i).Type(), q))
+		}
+		for i := 0; i < sig.Results().Len(); i++ {
+			rs = append(rs, types.TypeString(sig.Results().At(i).Type(), q))
+		}
+		fp.Sig = "(" + strings.Join(ps, ", ") + ") (" + strings.Join(rs, ", ") + ")"
+		if sig.Variadic() {
+			fp.Sig += " variadic"
+		}
+	}
+	set := map[string]bool{}
+	if fd.Body != nil {
+		ast.Inspect(fd.Body, func(n ast.Node) bool {
+			switch x := n.(type) {
+			case *ast.CallExpr:
+				if fn := CalleeFunc(pk.TypesInfo, x); fn != nil && fn.Pkg() != nil && fn.Pkg() != pk.Types {
+					set["call:"+fn.FullName()] = true
+				}
+			case *ast.BasicLit:
+				if x.Kind == token.STRING || x.Kind == token.CHAR {
+					v := x.Value
+					if len(v) > 60 {
+						v = v[:60]
+					}
+					set["lit:"+v] = true
+				}
+			case *ast.SelectorExpr:
+				if sel := pk.TypesInfo.Selections[x]; sel != nil && sel.Kind() == types.FieldVal {
+					set["field:"+x.Sel.Name] = true
+				}
+			}
+			return true
+		})
+	}
+	for k := range set {
+		fp.Feat = append(fp.Feat, k)
+	}
+	sort.Strings(fp.Feat)
+	return fp
+}
+
+func loadAnchorTable() map[string]AnchorPrint {
+	if anchorTable != nil {
+		return anchorTable
+	}
+	anchorTable = map[string]AnchorPrint{}
+	if AnchorTable != "" {
+		if b, err := os.ReadFile(AnchorTable); err == nil {
+			_ = json.Unmarshal(b, &anchorTable)
+		}
+	}
+	return anchorTable
+}
+
+func relOf(pk *packages.Package) string { return strings.TrimPrefix(pk.PkgPath, Module+"/") }
+
+// matchRenames pairs, for one package, recorded function names that are gone
+// with functions that are new.
+func matchRenames(pk *packages.Package) {
+	if renameDone[pk] {
+		return
+	}
+	renameDone[pk] = true
+	t := loadAnchorTable()
+	rel := relOf(pk)
+	current := map[string]*ast.FuncDecl{}
+	AllFuncDecls(pk, func(fd *ast.FuncDecl) { current[FuncName(fd)] = fd })
+	var gone []string
+	for k := range t {
+		if !strings.HasPrefix(k, rel+".") {
+			continue
+		}
+		name := strings.TrimPrefix(k, rel+".")
+		if strings.Contains(name, "/") {
+			continue // a sub-package
+		}
+		if current[name] == nil {
+			gone = append(gone, name)
+		}
+	}
+	if len(gone) == 0 {
+		return
+	}
+	sort.Strings(gone)
+	var fresh []string
+	for name := range current {
+		if _, known := t[rel+"."+name]; !known {
+			fresh = append(fresh, name)
+		}
+	}
+	sort.Strings(fresh)
+	jaccard := func(a, b []string) float64 {
+		if len(a) == 0 && len(b) == 0 {
+			return 1
+		}
+		in := map[string]bool{}
+		for _, x := range a {
+			in[x] = true
+		}
+		both := 0
+		for _, x := range b {
+			if in[x] {
+				both++
+			}
+		}
+		return float64(both) / float64(len(a)+len(b)-both)
+	}
+	type pair struct {
+		old, cur string
+		score    float64
+	}
+	var pairs []pair
+	fps := map[string]AnchorPrint{}
+	for _, n := range fresh {
+		fps[n] = fingerprintOf(pk, current[n])
+	}
+	for _, o := range gone {
+		want := t[rel+"."+o]
+		for _, n := range fresh {
+			fp := fps[n]
+			if fp.Recv != want.Recv || fp.Sig != want.Sig {
+				continue
+			}
+			pairs = append(pairs, pair{o, n, jaccard(want.Feat, fp.Feat)})
+		}
+	}
+	sort.SliceStable(pairs, func(i, j int) bool { return pairs[i].score > pairs[j].score })
+	usedOld, usedCur := map[string]bool{}, map[string]bool{}
+	for i, p := range pairs {
+		if usedOld[p.old] || usedCur[p.cur] || p.score < 0.5 {
+			continue
+		}
+		// unambiguous: no other free pairing of either side scores nearly as well
+		ambiguous := false
+		for j, q := range pairs {
+			if i == j || usedOld[q.old] && q.old != p.old || usedCur[q.cur] && q.cur != p.cur {
+				continue
+			}
+			if (q.old == p.old || q.cur == p.cur) && !(q.old == p.old && q.cur == p.cur) && p.score-q.score < 0.1 {
+				ambiguous = true
+			}
+		}
+		if ambiguous {
+			continue
+		}
+		usedOld[p.old], usedCur[p.cur] = true, true
+		fd := current[p.cur]
+		renamedDecl[rel+"."+p.old] = fd
+		simple := p.old
+		if i := strings.LastIndex(simple, "."); i >= 0 {
+			simple = simple[i+1:]
+		}
+		if o := pk.TypesInfo.Defs[fd.Name]; o != nil {
+			oldNameOf[o] = simple
+		}
+		oldDeclName[fd] = simple
+		AnchorNotes = append(AnchorNotes, fmt.Sprintf("%s.%s is not declared under that name any more; %s has the recorded receiver, signature and the closest feature set (similarity %.2f) and answers to the recorded name", rel, p.old, p.cur, p.score))
+	}
+}
+
+func renamedAnchor(pk *packages.Package, rel, name, recv string) *ast.FuncDecl {
+	matchRenames(pk)
+	return renamedDecl[rel+"."+name]
+}
+
+// RecordedName is the simple name under which a function is known: its
+// recorded name when it was renamed, else its own.
+func RecordedName(fn *types.Func) string {
+	if fn == nil {
+		return ""
+	}
+	if fn.Pkg() != nil && IsSource(fn.Pkg().Path()) && Current != nil {
+		if pk := Current.ByPkg[fn.Pkg().Path()]; pk != nil {
+			matchRenames(pk)
+		}
+		if o, ok := oldNameOf[fn.Origin()]; ok {
+			return o
+		}
+	}
+	return fn.Name()
+}
+
+// RecordedFullName is fn.FullName() with the recorded simple name.
+func RecordedFullName(fn *types.Func) string {
+	full := fn.FullName()
+	if old := RecordedName(fn); old != fn.Name() {
+		return strings.TrimSuffix(full, fn.Name()) + old
+	}
+	return full
+}
+
+// WriteAnchors records the fingerprints of every function of the module's
+// hand-written packages.
+func WriteAnchors() error {
+	if AnchorTable == "" || Current == nil {
+		return nil
+	}
+	t := map[string]AnchorPrint{}
+	for path, pk := range Current.ByPkg {
+		if !IsSource(path) {
+			continue
+		}
+		pk := pk
+		AllFuncDecls(pk, func(fd *ast.FuncDecl) {
+			t[relOf(pk)+"."+FuncName(fd)] = fingerprintOf(pk, fd)
+		})
+	}
+	b, err := json.MarshalIndent(t, "", " ")
+	if err != nil {
+		return err
+	}
+	return os.WriteFile(AnchorTable, append(b, '\n'), 0o644)
+}
+
+// CalleeIs reports whether the call's static callee is the module function
+// rel."Func" / rel."Recv.Method" — resolved like any anchor, so a renamed
+// function is still recognised.
+func CalleeIs(info *types.Info, call *ast.CallExpr, rel, name string) bool {
+	fn := CalleeFunc(info, call)
+	if fn == nil || Current == nil {
+		return false
+	}
+	fd, pk := Current.FuncDecl(rel, name)
+	return fd != nil && pk.TypesInfo.Defs[fd.Name] == types.Object(fn.Origin())
+}
+
+// AnchorFullName is the full name (as printed by CalleeName) of the module
+// function rel.name, following a rename; name itself when it cannot be found.
+func AnchorFullName(rel, name string) string {
+	if Current != nil {
+		if fd, pk := Current.FuncDecl(rel, name); fd != nil {
+			if fn, ok := pk.TypesInfo.Defs[fd.Name].(*types.Func); ok {
+				return fn.FullName()
+			}
+		}
+	}
+	return name
 }
 
 // RecvName returns the receiver's named type (without pointer / type params)
@@ -181,11 +468,17 @@ func RecvName(fd *ast.FuncDecl) string {
 
 // FuncName renders pkg-relative "Recv.Method" / "Func" for a declaration.
 func FuncName(fd *ast.FuncDecl) string {
-	if r := RecvName(fd); r != "" {
-		return r + "." + fd.Name.Name
+	name := fd.Name.Name
+	if old, ok := oldDeclName[fd]; ok {
+		name = old
 	}
-	return fd.Name.Name
+	if r := RecvName(fd); r != "" {
+		return r + "." + name
+	}
+	return name
 }
+
+var oldDeclName = map[*ast.FuncDecl]string{} // renamed declaration → recorded simple name
 
 // AllFuncDecls iterates every function declaration with a body in a package.
 func AllFuncDecls(pk *packages.Package, f func(fd *ast.FuncDecl)) {
@@ -388,6 +681,19 @@ func FollowSource(f *ssa.Function) bool { return IsSource(FuncPkgPath(f)) }
 // FuncKey is a stable, line-free name for an SSA function.
 func FuncKey(f *ssa.Function) string {
 	s := f.String()
+	// a renamed function (or the function enclosing a closure) answers to its recorded name
+	root := f
+	for root.Parent() != nil {
+		root = root.Parent()
+	}
+	if o, ok := root.Object().(*types.Func); ok && root.Origin() == nil || ok {
+		if old := RecordedName(o); old != o.Name() {
+			rs := root.String()
+			if strings.HasPrefix(s, rs) && strings.HasSuffix(rs, o.Name()) {
+				s = strings.TrimSuffix(rs, o.Name()) + old + strings.TrimPrefix(s, rs)
+			}
+		}
+	}
 	s = strings.ReplaceAll(s, Module+"/", "")
 	return s
 }
